@@ -92,8 +92,43 @@ def extract() -> T.Dict[str, T.Any]:
                                 'FunctionNode', 'MethodNode', 'ArithmeticNode', 'OrNode', 'AndNode', 'ComparisonNode',
                                 'NotNode', 'UMinusNode', 'TernaryNode', 'ParenthesizedNode')
                     if issubclass(getattr(mparser, n), (mparser.ElementaryNode, mparser.IndexNode)))
-    return {'prec': prec, 'paren_transparent': paren_transparent, 'esc': esc, 'indent': indent, 'cutoff': cutoff,
+    key = probe_sort_key()
+    return {'sort_line': key['line'], 'sort_col': key['col'], 'prec': prec, 'paren_transparent': paren_transparent, 'esc': esc, 'indent': indent, 'cutoff': cutoff,
             'spaces': spaces, 're_spaces_same': spaces == re_spaces, 'seps': seps, 'simple': simple}
+
+
+def probe_sort_key() -> T.Dict[str, bool]:
+    """what `apply_changes` sorts its work list by, observed on the real method: two synthetic modified nodes are queued
+    in ASCENDING position order (a) on two lines, (b) on one line; the rewritten text is right only if the later node
+    was applied first, i.e. only if the line / the column is part of the descending sort key."""
+    import copy
+    import tempfile
+    from mesonbuild import mparser, rewriter as RW, mlog
+    res = {}
+    for name, text, good in (('line', 'f([1],\n  [2])\n', 'f([1, 1],\n  [2, 2])\n'),
+                             ('col', 'f([1], [2])\n', 'f([1, 1], [2, 2])\n')):
+        d = tempfile.mkdtemp(prefix='c17key-')
+        try:
+            path = os.path.join(d, 'meson.build')
+            with open(path, 'w', encoding='utf-8') as fh:
+                fh.write(text)
+            call = mparser.Parser(text, path).parse().lines[0]
+            a, b = call.args.arguments
+            for n in (a, b):
+                n.args.arguments = n.args.arguments + [copy.copy(n.args.arguments[0])]
+            rw = RW.Rewriter.__new__(RW.Rewriter)
+            rw.modified_nodes, rw.to_remove_nodes, rw.to_add_nodes = [a, b], [], []
+            quiet = mlog._logger.log_disable_stdout
+            mlog._logger.log_disable_stdout = True
+            try:
+                rw.apply_changes()
+            finally:
+                mlog._logger.log_disable_stdout = quiet
+            with open(path, encoding='utf-8') as fh:
+                res[name] = fh.read() == good
+        finally:
+            common.rmtree(d)
+    return res
 
 
 def lean_text(t: T.Dict[str, T.Any]) -> str:
@@ -116,6 +151,10 @@ def lean_text(t: T.Dict[str, T.Any]) -> str:
     out.append('def pySpace : List Nat := [' + ', '.join(str(c) for c in t['spaces']) + ']')
     out.append('/-- code points at which `str.splitlines()` breaks a line -/')
     out.append('def lineSeps : List Nat := [' + ', '.join(str(c) for c in t['seps']) + ']')
+    out.append('/-- `apply_changes` applies a later LINE before an earlier one (probed on the real method with two queued nodes) -/')
+    out.append(f'def sortKeyUsesLine : Bool := {"true" if t["sort_line"] else "false"}')
+    out.append('/-- … and, on one line, a later COLUMN before an earlier one -/')
+    out.append(f'def sortKeyUsesColumn : Bool := {"true" if t["sort_col"] else "false"}')
     out.append('/-- node classes that are `ElementaryNode` or `IndexNode` (do not force `break_args`) -/')
     out.append('def simpleArgClasses : List String := [' + ', '.join('"%s"' % s for s in t['simple']) + ']')
     out.append('end MesonModel.Generated.PrecTable')
